@@ -12,14 +12,26 @@ mod methods {
     }
 
     fn timestamp(arg: String) -> CelResult<DateTime<Utc>> {
-        if let Ok(val) = arg.parse::<DateTime<Utc>>() {
-            Ok(val)
+        let parsed = if let Ok(val) = arg.parse::<DateTime<Utc>>() {
+            val
         } else if let Ok(val) = DateTime::parse_from_rfc2822(&arg) {
-            Ok(val.to_utc())
+            val.to_utc()
         } else if let Ok(val) = DateTime::parse_from_rfc3339(&arg) {
-            Ok(val.to_utc())
+            val.to_utc()
         } else {
-            Err(CelError::value("Invalid timestamp format"))
+            return Err(CelError::value("Invalid timestamp format"));
+        };
+
+        // A leap second (23:59:60) is kept by chrono as second 59 with a nanosecond
+        // count above one second: an instant that equals no ordinary one and
+        // changes when it is written out. Count it as the second that follows.
+        let nanos = parsed.timestamp_subsec_nanos();
+        match DateTime::from_timestamp(
+            parsed.timestamp() + (nanos / 1_000_000_000) as i64,
+            nanos % 1_000_000_000,
+        ) {
+            Some(val) => Ok(val),
+            None => Err(CelError::value("Invalid timestamp value")),
         }
     }
 
